@@ -138,6 +138,9 @@ def truthy(sv):
     if t.kind == 'none':
         return z3.BoolVal(False)
     if t.kind == 'opt':
+        if t.args[0].kind == 'cfg':
+            # an optional configuration value: not None AND a truthy YAML value (0, '', [] and {} are falsy)
+            return z3.And(sv.z != 0, z3.Function('cfg_truthy', z3.IntSort(), z3.BoolSort())(sv.z))
         if T.is_reflike(t.args[0]):
             return sv.z != 0
         dt = T.sort_of(t)
@@ -987,6 +990,8 @@ class Executor:
                 return k(st, SV(INT, -self.coerce(v, INT).z))
             if isinstance(e.op, ast.UAdd):
                 return k(st, v)
+            if isinstance(e.op, ast.Invert) and v.ty.kind in ('int', 'bool'):
+                return k(st, SV(INT, -self.coerce(v, INT).z - 1))          # ~x == -x - 1 on Python's unbounded ints
             raise VCError(f'unary operator outside subset: {ast.unparse(e)}')
         return self.ev(st, e.operand, cx, f)
 
@@ -1024,6 +1029,11 @@ class Executor:
                         s = self.narrow(s, v, True)
             except NotPure:
                 vals = None
+                del self.obs[nobs:]
+            except VCError as err_:
+                if 'expression forks or raises' not in str(err_):
+                    raise
+                vals = None                      # an operand dispatches / may raise: use the forking evaluation below
                 del self.obs[nobs:]
         if vals is not None:
             if all(v.ty.kind == 'bool' for v in vals):
@@ -1279,6 +1289,17 @@ class Executor:
             return z3.Select(self.dict_dom(st, coll), self.coerce(x, t.args[0]).z)
         if t.kind == 'set':
             return z3.Select(self.set_content(st, coll), self.coerce(x, t.args[0]).z)
+        if t.kind == 'cfg' and x.ty.kind == 'list' and x.ty.args[0].kind == 'str':
+            # a list of strings is an element of a configured list of lists iff some entry has the same length and
+            # the same strings in the same order (Python list equality)
+            n_ = self.uf('cfg_len', z3.IntSort(), z3.IntSort())
+            it_ = self.uf('cfg_item', z3.IntSort(), z3.IntSort(), z3.IntSort())
+            k_, j_ = z3.Int('k!lin'), z3.Int('j!lin')
+            xl, xa = self.list_len(st, x), self.list_arr(st, x)
+            ent = it_(coll.z, k_)
+            same = z3.ForAll([j_], z3.Implies(z3.And(j_ >= 0, j_ < xl),
+                                              self.coerce(SV(T.CFG, it_(ent, j_)), STR).z == z3.Select(xa, j_)))
+            return z3.Exists([k_], z3.And(k_ >= 0, k_ < n_(coll.z), n_(ent) == xl, same))
         if t.kind == 'cfg':
             if x.ty.kind != 'str':
                 raise VCError('`in` on a configuration node with a non-string key')
